@@ -39,7 +39,7 @@ fn frame_of(p: &PoolProg, calc: bool) -> u64 {
 }
 
 #[derive(Clone, Copy, PartialEq, Eq, Debug)]
-enum Ver {
+pub enum Ver {
     Default,
     AcceptAll,
     RejectAll,
@@ -47,21 +47,21 @@ enum Ver {
 }
 
 #[derive(Clone)]
-struct PoolProg {
-    bytes: Vec<u8>,
-    id: u64,
-    needs_helper: bool,
+pub struct PoolProg {
+    pub bytes: Vec<u8>,
+    pub id: u64,
+    pub needs_helper: bool,
     /// the program reports its caller-to-callee frame pointer distance (xor-ed into the id)
     frame_probe: bool,
     default_ok: bool,
     /// offsets the program was written for (fixed VM probe programs)
-    probe: Option<(usize, usize)>,
+    pub probe: Option<(usize, usize)>,
 }
 
 const HELPER_ID: u32 = 7;
 const HARGS: [u64; 5] = [11, 22, 33, 44, 55];
 
-fn mk_pool(rng: &mut Rng, pkt_addr: u64) -> Vec<PoolProg> {
+pub fn mk_pool(rng: &mut Rng, pkt_addr: u64) -> Vec<PoolProg> {
     let mut pool = Vec::new();
     let mut next_id = |rng: &mut Rng, parity: u64| -> u64 { ((rng.next() & 0x7fff_ffff_ffff_ff00) | (rng.below(127) * 2 + parity)) & !0x8000_0000 };
     for k in 0..12 {
@@ -120,7 +120,7 @@ fn mk_pool(rng: &mut Rng, pkt_addr: u64) -> Vec<PoolProg> {
 }
 
 #[derive(Clone, Debug)]
-enum Op {
+pub enum Op {
     New(Option<usize>),
     SetProgram(usize),
     SetVerifier(Ver),
@@ -134,7 +134,7 @@ enum Op {
 }
 
 #[derive(Clone, Debug, PartialEq, Eq)]
-enum Obs {
+pub enum Obs {
     Ok,
     Err,
     Val(u64),
@@ -187,43 +187,9 @@ fn value_of(p: &PoolProg, helper: Option<usize>, offs: (usize, usize), kind: Kin
     Some(vec![p.id])
 }
 
-pub fn run(a: &Args, rep: &mut Report) {
-    let mut rng = Rng::derive(a.seed, a.shard, 10);
-    let q = a.tier == "quick";
-    let n = ((if q { 120_000.0 } else { 8_000_000.0 }) * a.scale) as u64 / a.nshards;
-    let pkt = GuardBuf::new(64, true, false);
-    pkt.fill(&[0x42u8; 64]);
-    let pool = mk_pool(&mut rng, pkt.addr());
-    let has_cl = cfg!(feature = "std");
-    let mut histories: Vec<(Kind, Vec<Op>)> = Vec::new();
-    for _ in 0..n {
-        let kind = crate::engines::KINDS[rng.below(4) as usize];
-        let len = rng.range(1, 40) as usize;
-        let mut ops: Vec<Op> = Vec::new();
-        let progs_for_kind: Vec<usize> = (0..pool.len()).filter(|i| pool[*i].probe.is_none() || kind == Kind::Fixed).collect();
-        ops.push(Op::New(if rng.chance(1, 2) { None } else { Some(*rng.pick(&progs_for_kind)) }));
-        for _ in 1..len {
-            ops.push(match rng.below(20) {
-                0 => Op::New(if rng.chance(1, 3) { None } else { Some(*rng.pick(&progs_for_kind)) }),
-                1..=4 => Op::SetProgram(*rng.pick(&progs_for_kind)),
-                5 | 6 => Op::SetVerifier(*rng.pick(&[Ver::Default, Ver::AcceptAll, Ver::RejectAll, Ver::Custom])),
-                7 => Op::RegisterHelper(rng.below(8) as usize),
-                8 => Op::SetCalc,
-                9 | 10 => Op::JitCompile,
-                11 | 12 if has_cl => Op::ClCompile,
-                13..=15 => Op::Exec,
-                16 | 17 => Op::ExecJit,
-                18 | 19 if has_cl => Op::ExecCl,
-                _ => Op::Exec,
-            });
-        }
-        histories.push((kind, ops));
-    }
-    let pk = (pkt.addr() as *mut u8, pkt.len());
-    let mbuff = GuardBuf::new(32, true, false);
-    let ends = sys::run_batch(histories.len(), 120, 60, |i, out| {
-        let (kind, ops) = &histories[i];
-        let mb = if *kind == Kind::Mbuff { (mbuff.addr() as *mut u8, mbuff.len()) } else { (std::ptr::null_mut(), 0) };
+/// Execute one API history against the real API (in the current process: callers wrap it in a
+/// forked child) and append one observation per call to `out`.
+pub fn exec_history(kind: &Kind, ops: &[Op], pool: &[PoolProg], pk: (*mut u8, usize), mb: (*mut u8, usize), out: &mut Vec<u8>) {
         let mut vm: Option<Vm> = None;
         let offs_of = |pi: usize| pool[pi].probe.unwrap_or((0, 8));
         for op in ops {
@@ -264,7 +230,17 @@ pub fn run(a: &Args, rep: &mut Report) {
                         Ok(()) => Obs::Ok,
                         Err(_) => Obs::Err,
                     },
-                    Op::JitCompile => match vm.as_mut().unwrap().jit_compile() {
+                    Op::JitCompile => {
+                        #[cfg(not(any(feature = "std", feature = "stdlite")))]
+                        {
+                            let _ = vm.as_mut().unwrap().set_jit_exec_memory(crate::exec::exec_memory(1 << 16));
+                        }
+                        match vm.as_mut().unwrap().jit_compile() {
+                            Ok(()) => Obs::Ok,
+                            Err(_) => Obs::Err,
+                        }
+                    }
+                    Op::JitCompile if false => match vm.as_mut().unwrap().jit_compile() {
                         Ok(()) => Obs::Ok,
                         Err(_) => Obs::Err,
                     },
@@ -310,6 +286,46 @@ pub fn run(a: &Args, rep: &mut Report) {
                 Obs::Skipped => out.push(4),
             }
         }
+}
+
+pub fn run(a: &Args, rep: &mut Report) {
+    let mut rng = Rng::derive(a.seed, a.shard, 10);
+    let q = a.tier == "quick";
+    let n = ((if q { 120_000.0 } else { 8_000_000.0 }) * a.scale) as u64 / a.nshards;
+    let pkt = GuardBuf::new(64, true, false);
+    pkt.fill(&[0x42u8; 64]);
+    let pool = mk_pool(&mut rng, pkt.addr());
+    let has_cl = cfg!(feature = "std");
+    let mut histories: Vec<(Kind, Vec<Op>)> = Vec::new();
+    for _ in 0..n {
+        let kind = crate::engines::KINDS[rng.below(4) as usize];
+        let len = rng.range(1, 40) as usize;
+        let mut ops: Vec<Op> = Vec::new();
+        let progs_for_kind: Vec<usize> = (0..pool.len()).filter(|i| pool[*i].probe.is_none() || kind == Kind::Fixed).collect();
+        ops.push(Op::New(if rng.chance(1, 2) { None } else { Some(*rng.pick(&progs_for_kind)) }));
+        for _ in 1..len {
+            ops.push(match rng.below(20) {
+                0 => Op::New(if rng.chance(1, 3) { None } else { Some(*rng.pick(&progs_for_kind)) }),
+                1..=4 => Op::SetProgram(*rng.pick(&progs_for_kind)),
+                5 | 6 => Op::SetVerifier(*rng.pick(&[Ver::Default, Ver::AcceptAll, Ver::RejectAll, Ver::Custom])),
+                7 => Op::RegisterHelper(rng.below(8) as usize),
+                8 => Op::SetCalc,
+                9 | 10 => Op::JitCompile,
+                11 | 12 if has_cl => Op::ClCompile,
+                13..=15 => Op::Exec,
+                16 | 17 => Op::ExecJit,
+                18 | 19 if has_cl => Op::ExecCl,
+                _ => Op::Exec,
+            });
+        }
+        histories.push((kind, ops));
+    }
+    let pk = (pkt.addr() as *mut u8, pkt.len());
+    let mbuff = GuardBuf::new(32, true, false);
+    let ends = sys::run_batch(histories.len(), 120, 60, |i, out| {
+        let (kind, ops) = &histories[i];
+        let mb = if *kind == Kind::Mbuff { (mbuff.addr() as *mut u8, mbuff.len()) } else { (std::ptr::null_mut(), 0) };
+        exec_history(kind, ops, &pool, pk, mb, out);
     });
     // ---- offline: compare each recorded history with the model ----
     for ((kind, ops), e) in histories.iter().zip(ends.iter()) {
